@@ -26,6 +26,10 @@ SPEC = dict(
              n=dict(quick=800, thorough=40000), timeout=dict(quick=300, thorough=1800),
              ev=dict(requires=["V.lib.Bytes", "V.models.Channel"], case_type="Channel.case",
                      mismatch="Channel.mismatch", monitor="Channel.monitor_fail")),
+        dict(name="snapstate", kind="test", pkg="./overlord/snapstate", run="TestVerifC34Snapstate",
+             n=dict(quick=1, thorough=1), timeout=dict(quick=300, thorough=900),
+             ev=dict(requires=["V.lib.Bytes", "V.models.Channel"], case_type="Channel.case",
+                     mismatch="Channel.mismatch", monitor="Channel.monitor_fail")),
     ],
     classify=classify,
     rule=("parse: EVERY string of 1..3 components over the vocabulary {'', latest, stable, candidate, beta, edge, foo, 1.0, "
